@@ -37,6 +37,7 @@ Ltac lift1 :=
   | |- bI _ _ _ _ _ _ (iloop _ _ _) => apply bI_loop
   | |- bI _ _ _ _ _ _ (ifun _) => apply bI_fun
   | |- bI _ _ _ _ _ _ (isub _ _ _) => apply bI_sub
+  | |- bI _ _ _ _ _ _ (isub_catch _ _ _) => apply bI_sub_catch
   | |- bP _ _ _ (bind _ _) => apply bP_bind; [|intro]
   | |- bP _ _ _ (ret _) => apply bP_ret
   | |- bP _ _ _ peek => apply bP_peek
@@ -97,6 +98,13 @@ Definition d_request_core cf buf : bI B data _ _ _ _ (g_request_core_body E fuel
 Proof. unfold g_request_core_body, icall_headers. lift. Defined.
 Definition d_response_core cf buf : bI B data _ _ _ _ (g_response_core_body E fuel cf buf).
 Proof. unfold g_response_core_body, icall_headers. lift. Defined.
+Ltac lift_callee ::= first [apply d_skip_empty_lines | apply d_skip_spaces | apply d_parse_version | apply d_parse_token
+  | apply d_parse_method | apply d_parse_uri | apply d_parse_code | apply d_parse_reason | apply d_headers_body
+  | apply d_request_core | apply d_response_core].
+Definition d_request_with_config cf buf : bI B data _ _ _ _ (g_request_with_config_body E fuel cf buf).
+Proof. unfold g_request_with_config_body. lift. Defined.
+Definition d_response_with_config cf buf : bI B data _ _ _ _ (g_response_with_config_body E fuel cf buf).
+Proof. unfold g_response_with_config_body. lift. Defined.
 Definition d_parse_headers src : bI B data _ _ _ _ (g_parse_headers_body E fuel src).
 Proof. unfold g_parse_headers_body, icall_headers. lift. Defined.
 
